@@ -377,7 +377,7 @@ impl Report {
         std::env::var("VERIF_CAP_S").ok().and_then(|s| s.parse().ok()).unwrap_or(d)
     }
     pub fn over_cap(&self) -> bool {
-        self.start.elapsed().as_secs_f64() > self.cap_s()
+        self.start.elapsed().as_secs_f64() > self.cap_s() || crate::ctl::STUCK_RUNS.load(Ordering::Relaxed) > 0
     }
     pub fn note_cap(&self, what: &str) {
         let mut c = self.capped.lock().unwrap();
@@ -724,23 +724,48 @@ pub fn run_cli(cwd: &Path, args: &[&str], env: &[(&str, &str)], timeout_s: f64) 
     for (k, v) in env {
         c.env(k, v);
     }
-    let mut child = c.spawn().expect("spawn production CLI (run ./check so that it is built)");
+    match status_with_timeout(&mut c, timeout_s) {
+        (Some(st), _) => (st.code().unwrap_or_else(|| -st.signal().unwrap_or(0)), false),
+        (None, true) => (-9, true),
+        (None, false) => (-1, false),
+    }
+}
+
+/// Run a command in its own process group; kill the whole group after `timeout_s`. Returns (status, timed out)
+pub fn status_with_timeout(cmd: &mut std::process::Command, timeout_s: f64) -> (Option<std::process::ExitStatus>, bool) {
+    use std::os::unix::process::CommandExt;
+    cmd.process_group(0);
+    let mut child = match cmd.spawn() {
+        Ok(c) => c,
+        Err(_) => return (None, false),
+    };
     let t0 = Instant::now();
     loop {
         match child.try_wait() {
-            Ok(Some(st)) => {
-                let code = st.code().unwrap_or_else(|| -st.signal().unwrap_or(0));
-                return (code, false);
-            }
+            Ok(Some(st)) => return (Some(st), false),
             Ok(None) => {
                 if t0.elapsed().as_secs_f64() > timeout_s {
+                    unsafe {
+                        libc::kill(-(child.id() as i32), libc::SIGKILL);
+                    }
                     let _ = child.kill();
                     let _ = child.wait();
-                    return (-9, true);
+                    return (None, true);
                 }
                 std::thread::sleep(std::time::Duration::from_millis(5));
             }
-            Err(_) => return (-1, false),
+            Err(_) => return (None, false),
         }
     }
+}
+
+/// like `Command::output`, with a timeout (stdout only)
+pub fn output_with_timeout(cmd: &mut std::process::Command, timeout_s: f64) -> (Option<std::process::ExitStatus>, Vec<u8>, bool) {
+    let path = scratch_root().join(format!("out-{}-{}", std::process::id(), SCRATCH_N.fetch_add(1, Ordering::Relaxed)));
+    let f = std::fs::File::create(&path).expect("capture file");
+    cmd.stdout(f).stderr(std::process::Stdio::null());
+    let (st, to) = status_with_timeout(cmd, timeout_s);
+    let out = std::fs::read(&path).unwrap_or_default();
+    let _ = std::fs::remove_file(&path);
+    (st, out, to)
 }
